@@ -582,7 +582,7 @@ def inline(F, t, depth=6, stack=(), strip=True, into_ctors=True):
             b = F.by_hash.get(c.best_hash)
             if b is not None and b.path not in stack and b.dk != 'Closure' and len(t[2]) == b.arg_count and (into_ctors or b.hash not in ctor_hashes(F)):
                 alts = success_alts(return_term_of(F, b))
-                if len(alts) == 1 and not contains(alts[0], lambda x: x[0] in ('rec', 'undef', 'unknown')):
+                if len(alts) == 1 and not contains(alts[0], lambda x: x[0] in ('undef', 'unknown')):
                     m = {('param', i + 1): a for i, a in enumerate(t[2])}
                     return inline(F, subst(alts[0], m), depth - 1, stack + (b.path,), strip, into_ctors)
     return t
@@ -729,7 +729,9 @@ def loop_push_total(body, push_block, use_block):
     s = some[0]
     if h in body.reachable(s, removed_blocks=[push_block]):
         return False
-    if use_block is not None and use_block != push_block and use_block in body.reachable(s, removed_blocks=[h]):
+    uses = [use_block] if isinstance(use_block, int) else list(use_block or [])
+    away = body.reachable(s, removed_blocks=[h])
+    if any(u != push_block and u in away for u in uses):
         return False
     return True
 
@@ -794,7 +796,18 @@ def seq_parts(t, depth=0, literal_only=False):
             if SEQ_CTX[0] is not None:
                 body, use_block = SEQ_CTX[0]
                 site = loop[0][4] if len(loop[0]) > 4 else None
-                if site is None or site[0] != body.path or not loop_push_total(body, site[1], use_block):
+                if site is None:
+                    return None
+                if site[0] != body.path:
+                    # the loop lives in a helper that was looked through: its vector leaves that helper at the return
+                    F = CURRENT_FACTS[0]
+                    hb = F.by_path.get(site[0]) if F is not None else None
+                    if hb is None:
+                        return None
+                    rets = [i for i in hb.normal_blocks() if (hb.term(i) or {}).get('k') == 'return']
+                    if not loop_push_total(hb, site[1], rets):
+                        return None
+                elif not loop_push_total(body, site[1], use_block):
                     return None
             out.append(('each', vals[0]))
             return out
